@@ -825,10 +825,10 @@ func (v *verifC08Net) send(p *verifC08Pay, wg *sync.WaitGroup) {
 		if err == nil {
 			resultChan, rerr = sender.htlcSwitch.GetAttemptResult(p.Pid, p.Hash, newMockDeobfuscator())
 		}
-		v.netMu.RUnlock()
 		p.mu.Lock()
 		p.sent = true
 		p.mu.Unlock()
+		v.netMu.RUnlock()
 		if err != nil {
 			p.mu.Lock()
 			p.outcome, p.errStr = "fail", "SendHTLC: "+err.Error()
@@ -1128,10 +1128,21 @@ func verifC08Case(t *testing.T, vc *verifCtx, i int) {
 		}
 		plan = append(plan, op)
 	}
+	// one case in sixteen has a Byzantine downstream peer instead of a fault
+	// plan: the first update_fulfill_htlc of one forwarded payment reaches
+	// the forwarder with a corrupted preimage.
+	byz := r.Intn(16) == 0
+	if byz {
+		plan = nil
+	}
 	if ov := os.Getenv("VERIF_C08_PLAN"); ov != "" { // debugging aid
 		plan = strings.Split(ov, ",")
+		byz = ov == "byz"
+		if byz {
+			plan = nil
+		}
 	}
-	vc.Case(i, map[string]any{"payments": nPay, "faults": strings.Join(plan, ",")})
+	vc.Case(i, map[string]any{"payments": nPay, "faults": strings.Join(plan, ","), "byzantine": byz})
 	capSat := btcutil.Amount(btcutil.SatoshiPerBitcoin * 5)
 	v, err := verifC08Start(t, vc, r, capSat)
 	if err != nil {
@@ -1156,6 +1167,21 @@ func verifC08Case(t *testing.T, vc *verifCtx, i int) {
 		v.mon.byHash[p.Hash] = p
 		v.mon.mu.Unlock()
 	}
+	var victim *verifC08Pay
+	if byz {
+		for _, p := range pays {
+			if p.forwarded() && p.Kind == "valid" {
+				victim = p
+				break
+			}
+		}
+		if victim != nil {
+			h := victim.Hash
+			v.byzMu.Lock()
+			v.byzHash = &h
+			v.byzMu.Unlock()
+		}
+	}
 	// launch in 1-3 waves
 	waves := 1 + r.Intn(3)
 	per := (nPay + waves - 1) / waves
@@ -1178,6 +1204,47 @@ func verifC08Case(t *testing.T, vc *verifCtx, i int) {
 			vc.Count("hold_payments", 1)
 		}
 	}
+	if victim != nil {
+		// Let the corrupted settle take effect. A correct forwarder
+		// refuses it (its link on the outgoing channel fails, as it
+		// would force-close in production) and must not settle the
+		// incoming HTLC; the wire monitor (settle_with_wrong_preimage,
+		// settle_only_with_downstream_preimage) and the sender's
+		// result (wrong-preimage) judge that. Then the outgoing
+		// channel reconnects: the honest peer retransmits the real
+		// settle and the case must end like any other.
+		vc.Count("byzantine_cases", 1)
+		if _, idle := v.waitIdle(15, 120*time.Second); !idle {
+			verifC08Fatalf(t, "case %d: network never became stable after the corrupted settle (inconclusive)", i)
+		}
+		v.byzMu.Lock()
+		done := v.byzDone
+		v.byzMu.Unlock()
+		if done {
+			vc.Count("byzantine_settles_corrupted", 1)
+			l := v.n.secondBobChannelLink
+			if victim.Dir == "CA" {
+				l = v.n.firstBobChannelLink
+			}
+			if l.failed {
+				vc.Count("byzantine_link_failed", 1)
+			} else {
+				vc.Diag("byzantine_link_not_failed", fmt.Sprintf("case %d: the forwarder's link did not fail on a settle with a wrong preimage", i))
+			}
+			victim.mu.Lock()
+			oc := victim.outcome
+			victim.mu.Unlock()
+			if oc == "success" || oc == "badpreimage" {
+				vc.Violation("settle_with_wrong_preimage", "sender-result-after-corrupted-settle:"+oc,
+					fmt.Sprintf("payment %d (%s): the only settle the forwarder received so far carried a wrong preimage, yet the sender already has the result %q",
+						victim.Idx, victim.Dir, oc), nil)
+			}
+		}
+		plan = []string{"fBC"}
+		if victim.Dir == "CA" {
+			plan = []string{"fAB"}
+		}
+	}
 	requery := func() {
 		// old result waiters return when the old switch stops; re-query
 		// every payment without a terminal result on the new switch.
@@ -1187,8 +1254,11 @@ func verifC08Case(t *testing.T, vc *verifCtx, i int) {
 		gen := v.gen
 		v.netMu.RUnlock()
 		for _, p := range pays {
+			// (a payment whose send goroutine has not run yet - it may be
+			// waiting for this very restart to finish - has nothing to
+			// re-query; its own send attaches the waiter)
 			p.mu.Lock()
-			need := p.outcome == "" && p.awaitGen != gen
+			need := p.outcome == "" && p.sent && p.awaitGen != gen
 			p.mu.Unlock()
 			if !need {
 				continue
